@@ -519,6 +519,15 @@ impl<'a> GeneratorState<'a> {
             s += &dasm_operand;
         }
 
+        // The address of an array or a constant is not a storage location
+        if dasm_operand.starts_with('#')
+            && matches!(mnemonic, STA | STX | STY | INC | DEC | ASL | LSR | ROL | ROR)
+        {
+            return Err(self
+                .compiler_state
+                .syntax_error("An array or a constant can't be modified, only its elements", pos));
+        }
+
         if let Some(f) = &self.current_function {
             let code: &mut AssemblyCode = self.functions_code.get_mut(f).unwrap();
             let instruction = AsmInstruction {
